@@ -72,9 +72,33 @@ theorem keepraw_raw_is_span {α : Type} (t : Codec α) (ht : Suffix t.dec) (bs :
 theorem keepraw_mutation_reencodes {α : Type} (t : Codec α) (k : KeepRaw α) (f : α → α) :
     (cKeepRaw t).enc (k.derefMut f) = t.enc (f k.inner) := keepraw_mut t k f
 
+/-- **every history**: the raw-keeping wrapper carries a `Cow` (borrowed from the input after decoding,
+    owned after `From<T>` / `to_owned` / `clear_raw`). For every sequence of the public operations
+    `to_owned`, `clone`, `deref`, `clear_raw`, `deref_mut + mutation`, starting from any wrapper:
+    if the sequence contains a `deref_mut` (or `clear_raw`) anywhere, the result has no raw bytes and
+    encodes as the inner codec's encoding of its *current* content — no matter how many `to_owned` /
+    `clone` come before or after the mutation -/
+theorem keepraw_mutation_reencodes_every_history {α : Type} (t : Codec α) (k : KeepRaw α) (ops : List (KOp α))
+    (h : ops.any KOp.invalidates = true) :
+    (k.run ops).raw = [] ∧ (cKeepRaw t).enc (k.run ops) = t.enc (k.run ops).inner := by
+  have hr := keepraw_run_invalidated ops k (Or.inr h)
+  exact ⟨hr, by simp [cKeepRaw, KeepRaw.enc, hr]⟩
+
+/-- … and a history without any mutation (any mix of `to_owned`, `clone`, `deref`) keeps the original
+    span and the content, so a decoded wrapper still encodes to exactly the bytes it was decoded from -/
+theorem keepraw_unmutated_history_keeps_original {α : Type} (t : Codec α) (ht : Consumes t.dec) (bs : Bytes)
+    (k : KeepRaw α) (r : Bytes) (hd : (cKeepRaw t).dec bs = .ok k r) (ops : List (KOp α))
+    (h : ops.all (fun o => !o.invalidates) = true) :
+    (cKeepRaw t).enc (k.run ops) ++ r = bs ∧ (k.run ops).inner = k.inner := by
+  obtain ⟨h1, h2⟩ := keepraw_run_untouched ops k h
+  refine ⟨?_, h2⟩
+  have hp := keepraw_pres t ht bs k r hd
+  simp only [cKeepRaw, KeepRaw.enc] at hp ⊢
+  rw [h1, h2]; exact hp
+
 /-- round trip of a `KeepRaw` made from a value (`From<T>`): same content, raw bytes = its encoding -/
 theorem keepraw_roundtrip_from {α : Type} (t : Codec α) (wf : α → Prop) (ht : RTon t wf) (a : α) (ha : wf a) (r : Bytes) :
-    (cKeepRaw t).dec ((cKeepRaw t).enc (KeepRaw.from a) ++ r) = .ok ⟨t.enc a, a⟩ r := keepraw_rt_from t wf ht a ha r
+    (cKeepRaw t).dec ((cKeepRaw t).enc (KeepRaw.from a) ++ r) = .ok ⟨.borrowed (t.enc a), a⟩ r := keepraw_rt_from t wf ht a ha r
 
 /-- round trip of a decoded `KeepRaw`: equal value, raw bytes included -/
 theorem keepraw_roundtrip_decoded {α : Type} (t : Codec α) (ht : Consumes t.dec) (bs : Bytes) (k : KeepRaw α) (r : Bytes)
@@ -299,8 +323,13 @@ example : minimalSeqHead 4 [0x82, 0x01, 0x02] = true ∧ minimalSeqHead 4 [0x9f,
 example : (cMaybeIndef cAnyUInt).dec [0x9f, 0x01, 0x18, 0x02, 0xff] = .ok (.indef [.majorByte 1, .u8 2]) [] := rfl
 example : (cKVP cAnyUInt (cNullable cAnyUInt)).dec [0xbf, 0x01, 0xf6, 0x02, 0xf7, 0xff]
     = .ok (.indef [(.majorByte 1, .null), (.majorByte 2, .undefined)]) [] := rfl
-example : (cKeepRaw (cVec cU64)).dec [0x9f, 0x01, 0x02, 0xff] = .ok ⟨[0x9f, 0x01, 0x02, 0xff], [1, 2]⟩ [] := rfl
-example : (cKeepRaw (cVec cU64)).enc ((KeepRaw.mk [0x9f, 0x01, 0x02, 0xff] [1, 2]).derefMut (· ++ [3])) = [0x83, 0x01, 0x02, 0x03] := rfl
+example : (cKeepRaw (cVec cU64)).dec [0x9f, 0x01, 0x02, 0xff] = .ok ⟨.borrowed [0x9f, 0x01, 0x02, 0xff], [1, 2]⟩ [] := rfl
+example : (cKeepRaw (cVec cU64)).enc ((KeepRaw.mk (.borrowed [0x9f, 0x01, 0x02, 0xff]) [1, 2]).derefMut (· ++ [3])) = [0x83, 0x01, 0x02, 0x03] := rfl
+/-- decode → `to_owned` → `clone` → mutate → `to_owned`: re-encoded from the new content -/
+example : (cKeepRaw (cVec cU64)).enc ((KeepRaw.mk (.borrowed [0x9f, 0x01, 0x02, 0xff]) [1, 2]).run
+    [.toOwned, .clone, .derefMut (· ++ [3]), .toOwned]) = [0x83, 0x01, 0x02, 0x03] := rfl
+example : (cKeepRaw (cVec cU64)).enc ((KeepRaw.mk (.borrowed [0x9f, 0x01, 0x02, 0xff]) [1, 2]).run [.toOwned, .clone, .deref])
+    = [0x9f, 0x01, 0x02, 0xff] := rfl
 example : cAnyCbor.dec [0x98, 0x02, 0x01, 0x9f, 0xff, 0x00] = .ok [0x98, 0x02, 0x01, 0x9f, 0xff] [0x00] := rfl
 /-- the `Nullable` side condition is needed: a payload that encodes as `f6` comes back as `Null` -/
 example : (cNullable (cNullable cU64)).dec ((cNullable (cNullable cU64)).enc (.some .null)) = .ok .null [] := rfl
